@@ -601,6 +601,17 @@ func (vc *VC) trCall(e *ECall, env *specEnv, c *Clause) sval {
 			vc.specFail(c, "unknown ghost state %q", id.Name)
 		}
 		return boolv(fmt.Sprintf("(= %s %s)", env.st.get(key), env.old.get(key)))
+	case "conv":
+		// conv(type(T), x): the Go conversion T(x) between strings and byte/rune slices (an uninterpreted
+		// function of x, the same one the engine uses for the conversion instruction)
+		argN(2)
+		ty, ok := e.Args[0].(*EType)
+		if !ok {
+			vc.specFail(c, "conv(type(T), x)")
+		}
+		t := vc.resolveType(ty.Text, env.pkg, c)
+		x := vc.tr(e.Args[1], env, c)
+		return sval{term: fmt.Sprintf("(uf_conv %d %s)", vc.typeID(t), x.term), typ: t}
 	case "unmodified":
 		// unmodified(p): no field of the struct p points to has been written since the old state
 		argN(1)
